@@ -6,7 +6,46 @@ PROP = dict(
     lean_modules=["MM.Props.C26"],
     theorems=[
         "MM.C26.C26_empty_allows_nothing",
+        "MM.C26.C26_empty_touches_nothing",
+        "MM.C26.C26_lexical",
+        "MM.C26.C26_prefix_componentwise",
+        "MM.C26.C26_glob_ancestor",
+        "MM.C26.C26_refuted",
+        "MM.C26.C26_partial",
     ],
     spec=True,
     chunk=6000,
+    timeout=1800,
+    rule="cases = allowed_paths from 20 pattern sets (plain directory, dir/**, dir/*, globs with ? [a-c] [^p] *.txt, malformed classes, escapes, "
+         "relative and empty lists, the wildcard) x a real directory tree (allowed area /data, outside areas /secret /etc, a random subset of 13 "
+         "symbolic links: to a parent, to outside (relative and absolute), to files, dangling, self loop, chains; a hard link) x 4-13 requests "
+         "(validate, download, upload, browse list / stat / chmod / delete with and without recursive) on 37 paths through and around the links, "
+         "15% mutated (trailing slash, '/.', doubled slashes, NUL / DEL / C1 control bytes, tab, relative, '..x', lexical '..', decomposed Unicode, "
+         "invalid UTF-8, case, empty) and long names (255-byte components); plus pure validation of 22 pattern forms x 30 path forms; the real "
+         "StreamHandler is run on a real sandbox; compared with the Lean model: error class, which physical file was read (by its unique content), "
+         "directory entries returned, and the physical paths whose content / existence / mode changed; non-trivial = the request passed validatePath",
+    nontrivial=lambda op, out: op.split(" ")[0] in ("val", "dl", "ul", "ls", "st", "cm", "rm") and not out.startswith(("err invalid", "err disabled", "err pathrequired")),
+    trusted_base=[
+        "the filesystem (MM/Model/C27.lean), path/filepath.Clean, Match, Dir, EvalSymlinks and unicode/utf8 decoding are MODELLED and validated by the correspondence run only",
+        "Unicode NFC (golang.org/x/text) is a parameter of the model; the harness passes the library's result for each request path; patterns are ASCII",
+        "the sandbox root is written '@' in scripts: the model works with paths relative to it (patterns never match above it)",
+        "bcrypt password check and MaxFileSize are not exercised (no password configured, no size limit)",
+    ],
+    assumptions=[
+        "C26_partial: request path already clean, no '..', no trailing slash, no component of it is a symbolic link; operations download, list, stat, chmod, non-recursive delete",
+        "directory transfers (tar) are covered by C27, recursive delete and the parent-directory creation of uploads are exercised by T-diff only",
+    ],
+    manifest=dict(
+        category="proof",
+        text="The pinned code violates the statement (open finding C26-symlinked-path-component): Lean theorem C26_refuted refutes C26_statement from a "
+             "concrete witness (download through a symbolic link in a parent component), replayed on the real code on every run together with "
+             "upload / list / chmod / delete variants. Proved for ALL inputs: C26_empty_allows_nothing / C26_empty_touches_nothing, C26_lexical, "
+             "C26_prefix_componentwise, C26_glob_ancestor (every accepted path is lexically inside an allowed pattern, component-wise for prefix "
+             "patterns) and C26_partial (no symbolic link on a clean requested path => the operation touches exactly that path or its hard links). "
+             "validatePath / filepath.Match / Clean and each operation's filesystem calls are modelled and tied to the code by a differential run on "
+             "real trees with symbolic links",
+        design_ref="DESIGN.md section 5 C26",
+        note="open finding; Lean kernel; OS / filepath / NFC modelled or parameterised, not verified; generator coverage",
+        technique="Lean 4 proof (refutation by evaluation on a witness + partial theorems) + differential correspondence harness on real directories",
+    ),
 )
